@@ -24,7 +24,10 @@
      demanded there (class Free); used = target = 0 is Stay.
    * MaxGas = -1 ("no block gas limit") is outside the modelled domain.
    * The magnitude of a move (the exact value Calc) is a guidance observable: the driver
-     counts a difference as drift; only the clause interval decides.                        *)
+     counts a difference as drift; only the clause interval decides. One exception: where the
+     rule's intermediate product exceeds the machine word (BigProduct) and the code agrees with
+     Calc everywhere else, a different value is reported as a silent overflow
+     (C17:NoOverflow:intermediate) - "the computation never overflows".                     *)
 EXTENDS Integers
 
 CONSTANT
@@ -54,6 +57,12 @@ Raw(last, used, maxGas, ratio, comp, init) ==
   ELSE IF used > t THEN last + Step(used - t, last, t, comp)
   ELSE IF last < init THEN init
   ELSE Max(last - Step(t - used, last, t, comp), init)
+
+\* the rule's intermediate product gap * last does not fit the machine word: the value can only be right
+\* if the computation really is done in big integers ("never overflows" includes silent wrap-around)
+BigProduct(last, used, maxGas, ratio) ==
+  LET t == Target(maxGas, ratio) IN
+  ~Disabled(last, ratio) /\ t >= 1 /\ t # used /\ (IF used > t THEN used - t ELSE t - used) * last > MaxPrice
 
 Saturates(last, used, maxGas, ratio, comp, init) == Raw(last, used, maxGas, ratio, comp, init) > MaxPrice
 Calc(last, used, maxGas, ratio, comp, init) == Min(Raw(last, used, maxGas, ratio, comp, init), MaxPrice)
